@@ -419,7 +419,7 @@ func gen(c *harness.C) []harness.Case {
 			},
 			rp: func(ch []int) replay { return replay{Family: name, Variant: v, Choices: ch} }})
 	}
-	for _, v := range []string{"three", "two-of-three", "duplicated"} {
+	for _, v := range []string{"three", "two-of-three", "duplicated", "unsorted-views"} {
 		v := v
 		name := "disc/" + v
 		fams = append(fams, fam{name: name, bound: b3,
